@@ -988,6 +988,88 @@ def _():
 
 
 # ======================================================================================
+# Gen/Polar.lean  --  base/utils.py make_polar / make_cartesian over a generic scalar with the library functions
+#                     (cos, sin, arctan2, 2-norm) as a parameter record; instantiated with the real functions in C17
+# ======================================================================================
+
+def _trg(node, subst):
+    """generic-scalar expression: names via subst, + - *, np.cos / np.sin / np.arctan2 / np.linalg.norm(v, axis=-1)"""
+    key = ast.unparse(node)
+    if key in subst:
+        return subst[key]
+    if isinstance(node, ast.BinOp) and isinstance(node.op, (ast.Add, ast.Sub, ast.Mult)):
+        sym = {ast.Add: "+", ast.Sub: "-", ast.Mult: "*"}[type(node.op)]
+        return f"({_trg(node.left, subst)} {sym} {_trg(node.right, subst)})"
+    if isinstance(node, ast.Call):
+        fn = ast.unparse(node.func)
+        if fn in ("np.cos", "np.sin") and len(node.args) == 1 and not node.keywords:
+            return f"(T.{fn[3:]} {_trg(node.args[0], subst)})"
+        if fn == "np.arctan2" and len(node.args) == 2 and not node.keywords:
+            return f"(T.arctan2 {_trg(node.args[0], subst)} {_trg(node.args[1], subst)})"
+        if fn == "np.linalg.norm" and len(node.args) == 1 and [(k.arg, ast.unparse(k.value)) for k in node.keywords] == [("axis", "-1")]:
+            v = ast.unparse(node.args[0])
+            if (v + "[..., 0]") in subst and (v + "[..., 1]") in subst:
+                return f"(T.norm2 {subst[v + '[..., 0]']} {subst[v + '[..., 1]']})"
+    raise Untranslatable(f"generic expression {key}")
+
+
+def _pair_return(fn):
+    """`return np.array((A.T, B.T)).T` -> (A, B)"""
+    ret = [s for s in stmts_of(fn) if isinstance(s, ast.Return)]
+    if len(ret) != 1:
+        raise Untranslatable(f"{fn.name}: return")
+    v = ret[0].value
+    ok = (isinstance(v, ast.Attribute) and v.attr == "T" and isinstance(v.value, ast.Call)
+          and ast.unparse(v.value.func) == "np.array" and len(v.value.args) == 1 and not v.value.keywords
+          and isinstance(v.value.args[0], ast.Tuple) and len(v.value.args[0].elts) == 2)
+    if not ok:
+        raise Untranslatable(f"{fn.name}: return value {ast.unparse(v)}")
+    names = []
+    for e in v.value.args[0].elts:
+        if not (isinstance(e, ast.Attribute) and e.attr == "T" and isinstance(e.value, ast.Name)):
+            raise Untranslatable(f"{fn.name}: returned component {ast.unparse(e)}")
+        names.append(e.value.id)
+    return names
+
+
+def _resolve(fn, name, subst):
+    """value of local `name` (single assignment each, straight line) as a generic expression"""
+    local = dict(subst)
+    for st in stmts_of(fn):
+        if isinstance(st, ast.Return):
+            break
+        if not (isinstance(st, ast.Assign) and len(st.targets) == 1 and isinstance(st.targets[0], ast.Name)):
+            raise Untranslatable(f"{fn.name}: statement {ast.unparse(st)[:50]}")
+        local[st.targets[0].id] = _trg(st.value, local)
+    if name not in local:
+        raise Missing(f"{fn.name}: local {name}")
+    return local[name]
+
+
+@fragment("Polar", "polar")
+def _():
+    out = ("/-- the library functions used by `make_polar` / `make_cartesian` (parameters of the model) -/\n"
+           "structure Trig (α : Type) where\n  cos : α → α\n  sin : α → α\n  arctan2 : α → α → α\n  norm2 : α → α → α\n\n")
+    mc = find_def(UT, "make_cartesian")
+    arg = mc.args.args[0].arg
+    sub = {f"{arg}[..., 0]": "r", f"{arg}[..., 1]": "phi"}
+    first, second = _pair_return(mc)
+    out += ("/-- first (y) component returned by `make_cartesian` for the polar vector `(r, phi)` -/\n"
+            f"def cartesian_y {{α : Type}} [Add α] [Sub α] [Mul α] (T : Trig α) (r phi : α) : α := {_resolve(mc, first, sub)}\n")
+    out += ("/-- second (x) component returned by `make_cartesian` -/\n"
+            f"def cartesian_x {{α : Type}} [Add α] [Sub α] [Mul α] (T : Trig α) (r phi : α) : α := {_resolve(mc, second, sub)}\n")
+    mp = find_def(UT, "make_polar")
+    arg = mp.args.args[0].arg
+    sub = {f"{arg}[..., 0]": "y", f"{arg}[..., 1]": "x"}
+    first, second = _pair_return(mp)
+    out += ("/-- first (length) component returned by `make_polar` for the cartesian vector `(y, x)` -/\n"
+            f"def polar_r {{α : Type}} [Add α] [Sub α] [Mul α] (T : Trig α) (y x : α) : α := {_resolve(mp, first, sub)}\n")
+    out += ("/-- second (angle) component returned by `make_polar` -/\n"
+            f"def polar_phi {{α : Type}} [Add α] [Sub α] [Mul α] (T : Trig α) (y x : α) : α := {_resolve(mp, second, sub)}\n")
+    return out
+
+
+# ======================================================================================
 # Gen/Eval.lean  --  evaluation kernels, shifts, log scaling, upsampling constants, dtypes
 # ======================================================================================
 _trcore.GEN_IMPORTS["Eval"] = ["BlobfinderModel.Model.Scalar"]
